@@ -395,7 +395,10 @@ def par_pair(a, b):
         [(A, setting("softpan", 1)), (B, ctl(10, 20))],           # a switch of one instance against the controller that reads it in the other
         [(A, ctl(10, 105)), (B, setting("vmodel", 3))],
         [(A, on(60, 1)), (B, on(64, 2))],
-        [(A, gen(300)), (B, gen(300))],
+        # long enough (milliseconds of CPU on every core) that the two calls really overlap after the barrier: scratch state
+        # shared by all chips of one core (a static buffer) only shows while both render
+        [(A, gen(6000)), (B, gen(6000))],
+        [(A, gen(5000)), (B, gen(7000))],
         [(A, {"e": "Lfo", "v": 1}), (B, gen(200))],
         [(A, gen(200)), (B, {"e": "Lfo", "v": 1})],
         [(A, {"e": "Reset"}), (B, gen(200))],
@@ -416,7 +419,7 @@ def par_many(rng, n):
     emus = [rng.choice(EMUS) for _ in range(n)]
     rounds = [[(i, create(emus[i], rng.choice(RATES))) for i in range(n)],
               [(i, on(48 + 3 * i, i % 3)) for i in range(n)],
-              [(i, gen(200)) for i in range(n)],
+              [(i, gen(5000)) for i in range(n)],
               [(i, {"e": "Reset"} if i % 2 == 0 else gen(150)) for i in range(n)],
               [(i, gen(150) if i % 2 == 0 else {"e": "Switch", "emu": rng.choice(EMUS)}) for i in range(n)],
               [(i, gen(100)) for i in range(n)],
